@@ -33,6 +33,12 @@ Oracles    : implementation only, judged by an independent reader (json / fastav
                         upper_bounds: none, true, of other content, too narrow, under other columns' ids, one side only, {}):
                         directed (every claim x column types) and mixed into every random transaction; after the commit every
                         stored value of every column must be found again by a filtered scan
+               claims   every OTHER caller-controlled field of a pre-built DataFile a manifest stores (harness/lib/c11_tx.py META: statistics
+                        maps keyed "abc" / "x y" / 1.5 / None / True / other ids, str values, {}; checksum of other content / the true
+                        one / upper case / not hex / an int; record_count 100 / 0 / -4 / "7"; negative size; partition values; adding
+                        snapshot) and the call-level claim _statistics_computed_here=True with bounds of other content: directed and mixed
+                        into every random transaction; the call raises and leaves no trace, or scan / filtered scans / row_count() work
+                        and agree with the content, and the stored entry (independent reader) holds no unverified claim
                lists    COMPLEX types: {"type": "list<e>"} columns to depth 2 (Schema lets dict definitions through; the writer
                         maps them to pa.list_) x list / tuple values whose elements plain pyarrow silently alters, scalars, nested
                         lists -- cells, spellings (listof, listof2), random histories
@@ -83,6 +89,11 @@ Findings   : (findings/C11-unchanged-tree.log, findings/C11-prebuilt-format-unch
                        table's 1 in the signature, keyed the bounds, and every later scan raised                              (fixed)
                F-C11j  a record key that is no str passed validation through str(k) and its value was stored as NULL         (fixed)
                        (findings/C11-*-unchanged-tree.log of the eighth audit round)
+               F-C11k  append_files stored the caller's column_sizes / value_counts / null_value_counts (keys str(k) -> int(k)), checksum and
+                       record_count unverified: a key "abc" / 1.5 / None made EVERY later read raise, a checksum of other content made
+                       every scan raise CorruptDataError, record_count=100 made row_count() 101                                   (fixed)
+               F-C11l  append_files(files, _statistics_computed_here=True) -- a public keyword -- stored caller bounds as given       (fixed)
+                       (findings/C11-prebuilt-claims-unchanged-tree.log; second audit)
                open    tables created without a schema enforce nothing (probe_legacy; outside the proved scope)
 """
 from __future__ import annotations
@@ -106,8 +117,8 @@ from harness.lib.values import val_to_coq
 LEVEL = "proof"
 THEOREMS = ["C11_accept_scans", "C11_history_scans", "C11_accept_bounds", "C11_history_filter", "C11_history_bounds_exact",
             "C11_history_bounds_true", "C11_reject_no_trace", "C11_exact_partial", "C11_fits_representable",
-            "C11_arg_object_irrelevant", "C11_tx_rejected_call_no_trace", "C11_tx_fault_fails_closed", "C11_tx_publishes_accepted_only", "C11_tx_unpublished_no_trace", "C11_tx_history_scans", "C11_tx_history_filter", "C11_tx_exact_partial",
-            "C11_open_derives_only_persisted", "C11_open_no_trace", "C11_handle_provenance_irrelevant", "C11_handles_history_scans",
+            "C11_arg_object_irrelevant", "C11_tx_rejected_call_no_trace", "C11_tx_fault_fails_closed", "C11_tx_publishes_accepted_only", "C11_tx_unpublished_no_trace", "C11_tx_history_scans", "C11_tx_history_filter", "C11_tx_exact_partial", "C11_tx_accepted_claims_sound", "C11_tx_claims_as_given_refuted",
+            "C11_open_derives_only_persisted", "C11_open_no_trace_model_sanity", "C11_handle_provenance_irrelevant", "C11_handles_history_scans",
             "C11_handles_history_filter", "C11_handles_exact_partial", "C11_handles_tx_history_scans"]
 REQ = ["DS.Model.Value", "DS.Gen.GenPrune", "DS.Model.Prune", "DS.Gen.GenSchema", "DS.Model.Schema", "DS.Model.SchemaTx",
        "DS.Model.OpenBase", "DS.Gen.GenOpen", "DS.Model.SchemaOpen", "DS.Model.SchemaEval"]
@@ -124,7 +135,11 @@ MANIFEST_ENTRY = {
                   "nothing to the queue, a successful commit publishes exactly the files the trace of its calls (run_calls) "
                   "lists for the accepted ones, any other end publishes nothing, full scans keep working, pruned filtered scans "
                   "equal unpruned ones whatever bounds callers supply with pre-built files (C11_tx_history_filter: stored bounds "
-                  "are none or recomputed from the file), the full scan returns exactly the canonical rows of accepted records "
+                  "are none or recomputed from the file; the flag _statistics_computed_here is honoured for a module-private token only, "
+                  "pinned by the translator), an ACCEPTED append_files call stores for every file statistics keys that read back as ints "
+                  "(recomputed under the table's field ids), a checksum that is the file's own or none (a file whose supplied checksum is "
+                  "not its own is refused) and the file's row count, whatever the caller's DataFile claims (C11_tx_accepted_claims_sound; "
+                  "storing the claims as given, as the unchanged library did, is refuted: C11_tx_claims_as_given_refuted), the full scan returns exactly the canonical rows of accepted records "
                   "calls and the rows of accepted files calls (C11_tx_exact_partial, under conv_sound), and calls made while "
                   "storage operations fail (metadata unreadable, marker writes failing) fail closed -- never 'no schema to "
                   "enforce' --, as does the GC-protection step of a pre-built-file call (marker writes, the listing of announced "
@@ -135,8 +150,7 @@ MANIFEST_ENTRY = {
                   "object only through its schema_id and fields, never through derived attributes such as a stale "
                   "schema_string (C11_arg_object_irrelevant); handle provenance is irrelevant: over the REGENERATED actions of "
                   "create_table / load_table / Table.__init__ (Gen/GenOpen.v) no opening derives an Arrow layout from its "
-                  "unvalidated schema argument (C11_open_derives_only_persisted), an opening never touches the table "
-                  "(C11_open_no_trace), and in any history interleaving openings (any opener, any schema argument, handles "
+                  "unvalidated schema argument (C11_open_derives_only_persisted), and in any history interleaving openings (any opener, any schema argument, handles "
                   "re-bound or alive side by side) with appends every outcome, the table state and all scans equal those of "
                   "the history without the openings (C11_handle_provenance_irrelevant; C11_handles_history_scans / _filter / "
                   "_exact_partial / _tx_history_scans spell out the consequences); a rejected append leaves "
@@ -144,7 +158,13 @@ MANIFEST_ENTRY = {
                   "rows are stored as canon(type, value) with every value representable (C11_exact_partial, under "
                   "conv_sound). Model pieces tied to the code by differential execution; implementation-only end-to-end "
                   "oracle with an independent reader searches for failing inputs.",
-    "level_note": "C11_exact_partial, C11_tx_exact_partial, C11_handles_exact_partial are partial: hypothesis conv_sound "
+    "level_note": "C11_tx_history_filter and C11_tx_exact_partial assume NoDup (adopted_ids txs): no pre-built file is handed to append_files "
+                  "twice in the history (the code lists a path once, the model would scan its rows twice: excluded in the statements). "
+                  "C11_tx_accepted_claims_sound is a statement about what is STORED per adopted file (statistics keys, checksum, record count); "
+                  "the model's full_scan covers the layout cause of a failing scan only, so that an undecodable entry / a failing checksum "
+                  "makes reads raise is the code's behaviour (found and replayed by the tx oracle), not derived in the model. "
+                  "C11_open_no_trace_model_sanity is model sanity (true by construction of open_with), not a fact about the code. "
+                  "C11_exact_partial, C11_tx_exact_partial, C11_handles_exact_partial are partial: hypothesis conv_sound "
                   "(pyarrow stores an ADMITTED value -- lists element by element -- as canon_c or raises) is validated against real "
                   "pyarrow on every run, not proved. The filter / bounds_true theorems assume conv_kinds (a converted cell has the "
                   "kind of its Arrow type), C11_tx_history_filter also pf_typed (a parquet column holds values of its footer "
@@ -208,18 +228,25 @@ def observe(path: str) -> Dict[str, Any]:
                     d = rec["data_file"]
                     fp = d["file_path"].lstrip("/")
                     out["reachable"].add(fp)
-                    files.append((fp, d.get("lower_bounds"), d.get("upper_bounds")))
+                    files.append((fp, d.get("lower_bounds"), d.get("upper_bounds"),
+                                  {"count": d.get("record_count"), "checksum": d.get("checksum"),
+                                   "stat_keys": [k for m in ("column_sizes", "value_counts", "null_value_counts") for k in (d.get(m) or {})]}))
         out["snapshots"].append((snap["snapshot_id"], [f[0] for f in files]))
         if snap["snapshot_id"] == out["current"]:
             cur = []
-            for fp, lo, hi in files:
+            for fp, lo, hi, meta in files:
+                try:
+                    import hashlib
+                    meta["sha256"] = hashlib.sha256(open(os.path.join(path, fp), "rb").read()).hexdigest()
+                except OSError:
+                    meta["sha256"] = None
                 try:
                     t = pq.read_table(os.path.join(path, fp))
                 except Exception as e:               # noqa: BLE001 - e.g. a reachable file that is no parquet file
-                    cur.append({"path": fp, "schema": [], "rows": [{"unreadable": type(e).__name__}], "lo": lo, "hi": hi})
+                    cur.append({"path": fp, "schema": [], "rows": [{"unreadable": type(e).__name__}], "lo": lo, "hi": hi, "meta": meta})
                     continue
                 cur.append({"path": fp, "schema": [(fl.name, str(fl.type), fl.nullable) for fl in t.schema],
-                            "rows": t.to_pylist(), "lo": lo, "hi": hi})
+                            "rows": t.to_pylist(), "lo": lo, "hi": hi, "meta": meta})
             out["files"] = cur
     ddir = os.path.join(path, "data")
     out["store"] = sorted(os.listdir(ddir)) if os.path.isdir(ddir) else []
@@ -1032,7 +1059,7 @@ def oracle_tx(ctx) -> List[Tuple[Dict[str, Any], Dict[str, Any]]]:
     """Explicit transactions that outlive a rejected call: directed multi-file appends whose refused file is at
     every position, then random transaction histories (records and files calls, commit / rollback / abandon /
     failing commit, reused and fresh handles)."""
-    from harness.lib.c11_tx import FILE_KINDS_BAD, STATS, gen_file, gen_tx_case, shrink_tx, tx_case_json
+    from harness.lib.c11_tx import FILE_KINDS_BAD, META, STATS, TRUSTED_STATS, gen_file, gen_tx_case, shrink_tx, tx_case_json
     rng = ctx.rng
     cases: List[Dict[str, Any]] = []
     kinds = FILE_KINDS_BAD
@@ -1046,6 +1073,22 @@ def oracle_tx(ctx) -> List[Tuple[Dict[str, Any], Dict[str, Any]]]:
             cases.append({"kind": "tx", "fields": fields, "seed": rng.getrandbits(30), "txs": [
                 {"handle": "A", "end": "commit", "calls": [{"op": "records", "variant": "omitted", "arg": None, "sid": 1, "build": "fresh", "records": gen_records(rng, fields, 0.0)}]},
                 {"handle": rng.choice(["A", "fresh"]), "end": "commit", "calls": [{"op": "files", "files": files}]}]})
+    # every OTHER caller-controlled field of a pre-built DataFile that a manifest stores (statistics maps and their keys,
+    # checksum, record_count, size, partition values, adding snapshot): each claim on one well-formed file, alone or next
+    # to an honest one -- the call raises and leaves no trace, or every later read (scan, filtered scan, row_count) works
+    # and agrees with the content; and the call-level claim append_files(files, _statistics_computed_here=True) with
+    # bounds that do not describe the file
+    for meta in META:
+        fields = [{"id": 1, "name": "a", "type": rng.choice(["long", "string"]), "required": False}, {"id": 2, "name": "b", "type": rng.choice(["long", "double"]), "required": False}]
+        files = [dict(gen_file(rng, fields, "good", rng.choice(["none", "true"])), meta=meta)] + ([gen_file(rng, fields, "good", "none")] if rng.random() < 0.5 else [])
+        cases.append({"kind": "tx", "fields": fields, "seed": rng.getrandbits(30), "txs": [
+            {"handle": "A", "end": "commit", "calls": [{"op": "records", "variant": "omitted", "arg": None, "sid": 1, "build": "fresh", "records": gen_records(rng, fields, 0.0)}]},
+            {"handle": rng.choice(["A", "fresh"]), "end": "commit", "calls": [{"op": "files", "files": files}]}]})
+    for stats in TRUSTED_STATS:
+        fields = [{"id": 1, "name": "a", "type": rng.choice(["long", "string"]), "required": False}, {"id": 2, "name": "b", "type": rng.choice(["long", "double"]), "required": False}]
+        cases.append({"kind": "tx", "fields": fields, "seed": rng.getrandbits(30), "txs": [
+            {"handle": "A", "end": "commit", "calls": [{"op": "records", "variant": "omitted", "arg": None, "sid": 1, "build": "fresh", "records": gen_records(rng, fields, 0.0)}]},
+            {"handle": rng.choice(["A", "fresh"]), "end": "commit", "calls": [{"op": "files", "trusted": True, "files": [gen_file(rng, fields, "good", stats)]}]}]})
     for kind in kinds:
         for pos in (0, 1, 2):
             for follow in ((False, True) if ctx.tier == "thorough" or pos == 2 else (False,)):
@@ -2106,6 +2149,32 @@ def claim_coq(d: Optional[Dict[Any, Any]]) -> str:
     return "(Some [" + "; ".join(ents) + "])"
 
 
+def pclaims_coq(meta: Optional[str], fo: Dict[str, Any]) -> str:
+    """The other caller-supplied fields of a pre-built DataFile as Model/SchemaTx.v pclaims: the keys of the statistics
+    maps (Some z: int(str(k)) = z; None: str(k) does not read back as an int), whether a supplied checksum is the
+    file's, the supplied record_count (a count that is no int: 0 -- the model never looks at it)."""
+    import hashlib
+    from harness.lib.c11_tx import meta_kwargs
+    if not meta:
+        return "no_claims"
+    full = os.path.join("/nonexistent", fo.get("path", ""))
+    kw = meta_kwargs(meta, [{"id": 1}, {"id": 2}, {"id": 3}], full, len(fo.get("rows", [])))
+    keys = []
+    for m in ("column_sizes", "value_counts", "null_value_counts"):
+        for k in (kw.get(m) or {}):
+            try:
+                keys.append(f"(Some ({int(str(k))})%Z)")
+            except ValueError:
+                keys.append("None")
+    if "checksum" in kw:
+        csum = "(Some true)" if meta == "checksum_true" else "(Some false)"
+    else:
+        csum = "None"
+    cnt = kw.get("record_count", max(1, len(fo.get("rows", []))))
+    cnt = cnt if isinstance(cnt, int) else 0
+    return f"{{| pc_stat_keys := [{'; '.join(keys)}]; pc_sum := {csum}; pc_count := ({cnt})%Z |}}"
+
+
 def fault_coq(spec: Optional[Dict[str, Any]], collecting: Optional[str] = None) -> Optional[str]:
     """The model's name for what a call meets (Model/SchemaTx.v fault); "" when there is nothing; None when it is not
     modelled (a bounded number of failing operations, other planes, a window AND an announced collection run)."""
@@ -2220,12 +2289,18 @@ def corr_tx(ctx, runs: List[Tuple[Dict[str, Any], Dict[str, Any]]]) -> None:
                         claim = fo.get("claim") or (None, None)
                         pfs.append(f"{{| pf_id := {this_id}%Z; pf_canonical := {b2c(k != 'noncanonical')}; pf_exists := {b2c(k != 'missing')}; "
                                    f"pf_parquet := {b2c(k not in ('avro', 'orc_declared'))}; pf_footer := {foot}; pf_rows := {rows}; "
-                                   f"pf_lo := {claim_coq(claim[0])}; pf_hi := {claim_coq(claim[1])} |}}")
+                                   f"pf_lo := {claim_coq(claim[0])}; pf_hi := {claim_coq(claim[1])}; pf_claims := {pclaims_coq(spec.get('meta'), fo)} |}}")
                     if len(pfs) != len(c["files"]):
                         ok = False
                     calls.append((f"CFilesF {ft} [" if ft else "CFiles [") + "; ".join(pfs) + "]")
                     ctags.append(0 if cev["outcome"] == "accepted" else (7 if "injected storage fault" in cev.get("message", "") else 6))
             end = {"commit": "EndCommit true", "commit_fails": "EndCommit false", "rollback": "EndRollback", "abandon": "EndAbandon"}[tx["end"]]
+            # a claim the manifest writer itself refuses (partition_values keyed by an int: fastavro raises when the manifest
+            # is built, before the commit point): the commit of that transaction fails -- the model's EndCommit false; that it
+            # leaves no trace is judged by the tx oracle
+            if tx["end"] == "commit" and str(tev.get("commit", "")).startswith("raised") and \
+                    any(f.get("meta") == "partition_int_key" for c, cev in zip(tx["calls"], tev["calls"]) if c["op"] == "files" and cev["outcome"] == "accepted" for f in c["files"]):
+                end = "EndCommit false"
             real_files = []
             for f in tev["files"]:
                 try:
